@@ -38,6 +38,13 @@ var scope = []struct {
 	{"internal/protocols/httpp/credentials.go", []string{"*"}},
 	{"internal/protocols/httpp/handler_filter_requests.go", []string{"*"}},
 	{"internal/protocols/httpp/content_type.go", []string{"*"}},
+	{"internal/protocols/httpp/handler_logger.go", []string{"*"}},
+	{"internal/protocols/httpp/handler_origin.go", []string{"*"}},
+	{"internal/protocols/httpp/handler_server_header.go", []string{"*"}},
+	{"internal/protocols/httpp/handler_write_timeout.go", []string{"*"}},
+	{"internal/protocols/httpp/handler_tracker.go", []string{"*"}},
+	{"internal/protocols/httpp/handler_exit_on_panic.go", []string{"*"}},
+	{"internal/protocols/httpp/remote_addr.go", []string{"*"}},
 	{"internal/conf/path.go", []string{"IsValidPathName"}},
 	{"internal/servers/srt/streamid.go", []string{"*"}},
 	{"internal/servers/srt/conn.go", []string{"*"}},
@@ -79,7 +86,7 @@ func main() {
 	fset := token.NewFileSet()
 
 	type row struct{ file, fn, expr string }
-	var sites, boundary []row
+	var sites, boundary, makes, closes []row
 	guards := map[string]bool{}
 
 	for _, sc := range scope {
@@ -115,6 +122,21 @@ func main() {
 				case *ast.SliceExpr:
 					sites = append(sites, row{sc.file, name, exprStr(fset, x)})
 				case *ast.CallExpr:
+					if id, ok := x.Fun.(*ast.Ident); ok && id.Name == "make" && len(x.Args) >= 2 {
+						// allocation sized at run time (a literal size is not listed)
+						lit := true
+						for _, a := range x.Args[1:] {
+							if _, ok := a.(*ast.BasicLit); !ok {
+								lit = false
+							}
+						}
+						if !lit {
+							makes = append(makes, row{sc.file, name, exprStr(fset, x)})
+						}
+					}
+					if id, ok := x.Fun.(*ast.Ident); ok && id.Name == "close" && len(x.Args) == 1 {
+						closes = append(closes, row{sc.file, name, exprStr(fset, x)})
+					}
 					callee := ""
 					switch fx := x.Fun.(type) {
 					case *ast.SelectorExpr:
@@ -190,6 +212,19 @@ func main() {
 		fmt.Fprintf(&sb, "  (%q, %q, %q)%s\n", s.file, s.fn, s.expr, sep)
 	}
 	sb.WriteString("]\n\n")
+	emitRows := func(name, doc string, rows []row) {
+		fmt.Fprintf(&sb, "/-- %s -/\ndef %s : List (String × String × String) := [\n", doc, name)
+		for i, s := range rows {
+			sep := ","
+			if i == len(rows)-1 {
+				sep = ""
+			}
+			fmt.Fprintf(&sb, "  (%q, %q, %q)%s\n", s.file, s.fn, s.expr, sep)
+		}
+		sb.WriteString("]\n\n")
+	}
+	emitRows("makes", "every `make` with a run-time size in the inventoried functions", makes)
+	emitRows("closes", "every `close(ch)` in the inventoried functions (a channel closed twice panics)", closes)
 	if len(guards) == 3 {
 		fmt.Fprintf(&sb, "/-- RTSP handlers start with the path guard followed by `ctx.Path = ctx.Path[1:]` -/\ndef rtspGuards : Bool := %v\n",
 			guards["onDescribe"] && guards["onAnnounce"] && guards["onSetup"])
